@@ -16,39 +16,56 @@ RULE = ('random configurable shape (fn/init/new/method) with allowlist/denylist 
         'selector spelling (shortest, partly and fully module-qualified); skip_unknown=True / list / tuple / set on every text entry point (a '
         'known configurable\'s bad parameter still raises); an accepted statement (flat, block, member of the same block, macro) in front of '
         'the rejected one; entry points parse_config(list), parse_config_file, include, files of parse_config_files_and_bindings; hook dicts with '
-        'tuple keys; unknown parameters under dynamic registration. distinct = (shape, list kind, name class, api path, scoped?, spelling, '
-        'skip kind, lead kind)')
+        'tuple keys; unknown parameters under dynamic registration; the shapes callable object and bound method, whose bound first parameter '
+        '(self / cls / any name) is no parameter the configurable can accept; a history in front of the examined binding that makes gin '
+        'inspect the signature (a call that marks the examined name gin.REQUIRED, passes it, marks the positionals REQUIRED, a plain call, an '
+        'earlier attempt at the same binding, introspection) and must not change the decision. distinct = (shape, list kind, name class, '
+        'api path, scoped?, spelling, skip kind, lead kind, prior kind)')
 TIERS = {
     'quick': {'workers': 8, 'cases': 3600, 'timeout': 600},
     'thorough': {'workers': 16, 'cases': 25000, 'timeout': 3000},
 }
 CLASSES = ['configurable', 'denylisted', 'not-allowlisted', 'unknown-no-varkw', 'unknown-varkw', 'varargs-name', 'unknown-configurable', 'method-bare',
            # names that only **kwargs can take, against the lists: outside the allowlist / named by the denylist / named by the allowlist
-           'varkw-not-allowlisted', 'varkw-denylisted', 'varkw-allowlisted']
+           'varkw-not-allowlisted', 'varkw-denylisted', 'varkw-allowlisted',
+           # the bound first parameter of a callable object / bound method (the caller can never supply it, the signature of the
+           # registered object does not have it)
+           'bound-receiver']
+# shapes of the ordinary cases; 'callable' = an instance with __call__, 'boundmethod' = obj.method, both through external_configurable
+SHAPES = ['fn', 'init', 'new', 'method', 'fn', 'init', 'new', 'method', 'callable', 'boundmethod']
+BOUND_SHAPES = ('callable', 'boundmethod')
 APIS = ['str', 'tuple', 'list', 'text', 'block', 'block-multi', 'files_and_bindings', 'hook',
         'hook-tuple', 'text-list', 'file', 'include', 'files']
 # entry points that take config text: they accept skip_unknown and can carry an accepted statement in front of the examined one
 TEXT_APIS = ('text', 'block', 'block-multi', 'files_and_bindings', 'text-list', 'file', 'include', 'files')
 SKIPS = [None, None, None, 'true', 'list-given', 'tuple-both', 'set-given', 'list-other']
 LEADS = [None, None, None, 'flat', 'block', 'same-block', 'macro']
+# history in front of the examined binding: uses of the configurable that make gin look at its signature / its registration.  None of them
+# registers anything or changes a list, so the accept/reject decision afterwards is the one of the fresh configurable.
+PRIORS = [None, None, None, None, 'call-marks-required', 'call-marks-required', 'call-passes-name', 'call-required-positional', 'call-plain',
+          'earlier-attempt', 'introspection']
 # History "bind y -> re-register the same name with y denylisted (or with a function without y) -> call, no clear_config in between": the
 # literal reading of "a non-configurable parameter is never injected" forbids the injection of the stored y; gin injects it (the lists are
 # consulted when a binding is made, never when it is used) - see /tmp/impl/C11/defect_1.py. Switched off so that the unchanged tree is 'held';
 # switch on to see the violation 'stale-binding-of-now-nonconfigurable-parameter-injected'.
 ENABLE_STALE_BINDING_AFTER_STRICTER_REREGISTRATION = False
 SPECIALS = ['reregister-with-denylist', 'reregister-interactive', 'decorated-function', 'two-hooks-second-rejected', 'dynamic-method-keeps-class-lists',
-            'dynamic-method-bare-name', 'method-of-configurable-decorated-class', 'list-given-as-iterator', 'dynamic-unknown-parameter']
+            'dynamic-method-bare-name', 'method-of-configurable-decorated-class', 'list-given-as-iterator', 'dynamic-unknown-parameter',
+            'bound-receiver-name']
 if ENABLE_STALE_BINDING_AFTER_STRICTER_REREGISTRATION:
   SPECIALS.append('stale-binding-after-stricter-reregistration')
 # further workloads for the property's online monitor (vf/online.py): the repository's tests and other checks' generated cases
 ONLINE = {'which': ['bind'], 'foreign': ['C01', 'C05', 'C07', 'C10', 'C12', 'C13', 'C20'], 'n': {'quick': 40, 'thorough': 600}}
 REQUIRED_BUCKETS = (['class:' + c for c in CLASSES] + ['api:' + a for a in APIS] + ['shape:fn', 'shape:init', 'shape:new', 'shape:method',
+                    'shape:callable', 'shape:boundmethod', 'bound-shape-accepted-then-injected', 'prior-then-rejected', 'prior-then-accepted',
+                    'prior-marked-required-then-unknown-rejected', 'receiver:bound-method', 'receiver:bound-classmethod',
+                    'receiver:callable-instance', 'receiver-not-called-self',
                     'verdict:accepted', 'verdict:rejected', 'scoped', 'accepted-then-injected', 'rejected-then-not-injected', 'varkw-with-denylist',
                     'spelling:short', 'spelling:mid', 'spelling:full', 'skip:true', 'skip:list-given', 'skip:tuple-both', 'skip:set-given', 'skip:list-other',
                     'skip-known-configurable-bad-parameter-raised', 'skip-known-configurable-accepted', 'skip-unknown-configurable-not-stored',
                     'lead:flat', 'lead:block', 'lead:same-block', 'lead:macro', 'lead-then-rejected-not-bound', 'lead-then-accepted',
                     'form:flat', 'form:block', 'varkw-name-listed', 'hooks-tuple-keys']
-                    + ['special:' + k for k in SPECIALS])
+                    + ['special:' + k for k in SPECIALS] + ['prior:' + k for k in sorted(set(PRIORS) - {None})])
 ORACLE_COUNTERS = ['oracle_evals', 'attempts']
 _S = {'plan': None}
 
@@ -86,7 +103,7 @@ def iter_cases(ctx, rng, n):
       continue
     cls = CLASSES[i % len(CLASSES)]
     api = APIS[(i // len(CLASSES)) % len(APIS)]
-    shape = rng.choice(['fn', 'init', 'new', 'method']) if cls != 'method-bare' else 'method'
+    shape = 'method' if cls == 'method-bare' else rng.choice(BOUND_SHAPES) if cls == 'bound-receiver' else rng.choice(SHAPES)
     for _ in range(200):
       spec = probes.gen_spec(rng, shapes=[shape], lists=False)
       names = probes.all_named(spec)
@@ -135,18 +152,28 @@ def iter_cases(ctx, rng, n):
         else:
           spec['allow'] = some + [param] + rng.sample(other, rng.randrange(0, 2))
         rng.shuffle(spec.get('allow') or spec['deny'])
+      elif cls == 'bound-receiver':
+        # with **kwargs the statement's "(or it takes **kwargs)" clause would apply: not examined
+        spec['varkw'] = False
+        r = rng.random()
+        if r < 0.3:
+          spec['deny'] = rng.sample(names, rng.randrange(1, len(names) + 1))
+        elif r < 0.4:
+          spec['allow'] = rng.sample(names, rng.randrange(1, len(names) + 1))
+        param = 'self'
       else:
         param = rng.choice(names)
       break
     text = api in TEXT_APIS
     yield {'cls': cls, 'api': api, 'spec': spec, 'param': param, 'scope': rng.choice(['', '', 'sc', 'sc/inner']),
            'pre': rng.random() < 0.7, 'spelling': rng.choice(['short', 'short', 'mid', 'full']),
-           'skip': rng.choice(SKIPS) if text else None, 'lead': rng.choice(LEADS) if text else None, 'form': rng.choice(['flat', 'block'])}
+           'skip': rng.choice(SKIPS) if text else None, 'lead': rng.choice(LEADS) if text else None, 'form': rng.choice(['flat', 'block']),
+           'prior': rng.choice(PRIORS), 'prior_extra': rng.random() < 0.4, 'prior_scoped': rng.random() < 0.5}
 
 
 def expected_accept(case):
   spec, cls, param = case['spec'], case['cls'], case['param']
-  if cls in ('unknown-configurable', 'method-bare', 'denylisted', 'not-allowlisted', 'unknown-no-varkw'):
+  if cls in ('unknown-configurable', 'method-bare', 'denylisted', 'not-allowlisted', 'unknown-no-varkw', 'bound-receiver'):
     return False
   if cls == 'varargs-name':
     return bool(spec['varkw'])
@@ -266,6 +293,53 @@ def attempt(gin, case, p, value):
     raise ValueError(api)
 
 
+def prior_history(gin, case, p):
+  """Uses of the configurable in front of the examined binding (case['prior']).  Whatever they do (most of them raise), they register
+  nothing and touch no list: nothing is demanded of them, only of the binding that follows."""
+  kind, param, spec = case.get('prior'), case['param'], p.spec
+  if not kind:
+    return
+  P = []
+  K = {n: ['caller', n] for n in spec['pos']}
+  K.update({n: ['caller', n] for n, has, _ in spec['kwonly'] if not has})
+  if kind == 'call-marks-required':
+    # the caller marks the examined name (and perhaps another name no signature has) as to-be-supplied-by-gin; nothing is bound to it
+    K[param] = gin.REQUIRED
+    if case.get('prior_extra'):
+      K['c11_foreign'] = gin.REQUIRED
+  elif kind == 'call-passes-name':
+    K[param] = ['caller', param]
+  elif kind == 'call-required-positional':
+    names = probes.positional_names(spec)
+    P = [gin.REQUIRED] * len(names)
+    for n in names:
+      K.pop(n, None)
+    if case.get('prior_extra'):
+      P.append(['caller', 'one-too-many'])
+  elif kind == 'earlier-attempt':
+    try:
+      gin.bind_parameter((case['scope'] if case.get('prior_scoped') else 'c11prior', spelled(case, p), param), ['c11-earlier', param])
+    except Exception:  # pylint: disable=broad-except
+      pass
+    return
+  elif kind == 'introspection':
+    full = ('%s/' % case['scope'] if case['scope'] else '') + p.key_selector + '.' + param
+    for fn in (lambda: gin.query_parameter(full), lambda: gin.get_bindings(p.selector), gin.config_str, gin.operative_config_str,
+               lambda: gin.get_configurable(p.selector)):
+      try:
+        fn()
+      except Exception:  # pylint: disable=broad-except
+        pass
+  try:
+    if case['scope'] and case.get('prior_scoped'):
+      with gin.config_scope(case['scope']):
+        probes.call_probe(p, P, K)
+    else:
+      probes.call_probe(p, P, K)
+  except Exception:  # pylint: disable=broad-except
+    pass
+
+
 def call_and_receive(gin, p, case, avoid):
   """Call the probe supplying every parameter without a default except `avoid` by keyword; return (received, exc)."""
   spec = p.spec
@@ -344,6 +418,42 @@ def run_special(ctx, case):
     ctx.bucket('special:list-as-' + ('accepted' if registered else 'refused'))
     if registered:
       expect_rejected('y', 'y was given in the denylist (as %s)' % listkind)
+  elif kind == 'bound-receiver-name':
+    # a bound method / bound classmethod / callable instance handed to external_configurable: its first parameter - whatever it is called -
+    # is bound already; the registered object's signature does not have it, so no binding path may accept it, however often it is asked,
+    # and not after a caller marked it gin.REQUIRED either.  The real parameters stay bindable.
+    recv = ['self', 'this', 'cls', 'me', '_r'][n % 5]
+    form = ['bound-method', 'bound-classmethod', 'callable-instance'][(n // 5) % 3]
+    mname = '__call__' if form == 'callable-instance' else ['run', 'draw', name][(n // 15) % 3]
+    g = {'log': log}
+    exec('class H:\n%s  def %s(%s, x=0, *, y=0):\n    log.append(("f", x, y))\n' %
+         ('  @classmethod\n' if form == 'bound-classmethod' else '', mname, recv), g)
+    obj = {'bound-method': lambda: getattr(g['H'](), mname), 'bound-classmethod': lambda: getattr(g['H'], mname), 'callable-instance': lambda: g['H']()}[form]()
+    lists = {'denylist': ['y']} if (n // 2) % 2 else {}
+    conf = gin.external_configurable(obj, name, module=module, **lists)
+    ctx.bucket('receiver:' + form)
+    if recv != 'self':
+      ctx.bucket('receiver-not-called-self')
+    why = 'it is the bound first parameter of the %s (def %s(%s, x=0, *, y=0))' % (form, mname, recv)
+    expect_rejected(recv, why)
+    expect_rejected(recv, why + ' [asked again]')
+    try:
+      conf(**{recv: gin.REQUIRED})
+    except Exception:  # pylint: disable=broad-except
+      pass
+    expect_rejected(recv, why + ' [after a call that marked it gin.REQUIRED]')
+    expect_rejected('nope', 'there is no such parameter')
+    if lists:
+      expect_rejected('y', 'y is denylisted')
+    bind_via(gin, api, scope, sel, 'x', 5)
+    err = None
+    try:
+      with gin.config_scope(scope or None):
+        conf()
+    except Exception as e:  # pylint: disable=broad-except
+      err = e
+    ctx.check(err is None and log[-1:] == [('f', 5, 0)], 'accepted-binding-not-injected', '%s (%s, receiver %r): call %s' %
+              (kind, form, recv, 'raised %r' % (err,) if err else 'received %r' % (log[-1:],)))
   elif kind == 'dynamic-method-keeps-class-lists':
     # a class registered (statically) with a denylist/allowlist; a config file then configures one of its methods under dynamic registration,
     # which re-registers the class: the lists must still hold
@@ -571,6 +681,10 @@ def run_case(ctx, case):
     good = [x for x in p.configurable_params() if x != param]
     if good:
       gin.bind_parameter((case['scope'], p.selector, good[0]), 'pre-existing')
+  prior = case.get('prior')
+  if prior:
+    ctx.bucket('prior:' + prior)
+    prior_history(gin, case, p)
   before = snap.full(gin)
   value = ['c11-value', ctx.case_no]
   accept = expected_accept(case)
@@ -582,9 +696,9 @@ def run_case(ctx, case):
     exc = e
   after = snap.full(gin)
   ctx.fp(spec['shape'], 'allow' if spec.get('allow') else ('deny' if spec.get('deny') else 'nolist'), cls, api, bool(case['scope']),
-         spec['varkw'], spec['varargs'], case.get('spelling'), skip_kind, lead)
+         spec['varkw'], spec['varargs'], case.get('spelling'), skip_kind, lead, prior)
   ctx.sample({'spec': spec, 'class': cls, 'api': api, 'param': param, 'scope': case['scope'], 'accept_expected': accept,
-              'spelling': case.get('spelling'), 'skip': skip_kind, 'lead': lead}, cap=4)
+              'spelling': case.get('spelling'), 'skip': skip_kind, 'lead': lead, 'prior': prior}, cap=4)
 
   def stored_anywhere():
     return [k for k, d in gc._CONFIG.items() for v in d.values() if teq(v, value)]
@@ -597,9 +711,14 @@ def run_case(ctx, case):
     may_skip = cls in ('unknown-configurable', 'method-bare') and skip_value(case, spelled(case, p), p)[1]
     if not may_skip:
       if not ctx.check(exc is not None, 'nonconfigurable-binding-accepted',
-                       '%s binding of %s parameter %r via %s accepted (spec %r, spelling %s, skip_unknown %s, lead %s)' %
-                       (cls, spec['shape'], param, api, {k: spec.get(k) for k in ('allow', 'deny', 'varkw', 'varargs')}, case.get('spelling'), skip_kind, lead)):
+                       '%s binding of %s parameter %r via %s accepted (spec %r, spelling %s, skip_unknown %s, lead %s, history in front %s)' %
+                       (cls, spec['shape'], param, api, {k: spec.get(k) for k in ('allow', 'deny', 'varkw', 'varargs')}, case.get('spelling'), skip_kind, lead,
+                        prior)):
         return
+      if prior:
+        ctx.bucket('prior-then-rejected')
+        if prior == 'call-marks-required' and cls in ('unknown-no-varkw', 'varargs-name', 'bound-receiver') and not spec['varkw']:
+          ctx.bucket('prior-marked-required-then-unknown-rejected')
       if skip_kind:
         ctx.bucket('skip-known-configurable-bad-parameter-raised' if cls not in ('unknown-configurable', 'method-bare') else 'skip-other-name-raised')
     if lead or exc is None:
@@ -627,9 +746,11 @@ def run_case(ctx, case):
       ctx.bucket('rejected-then-not-injected')
     return
   ctx.bucket('verdict:accepted')
-  if not ctx.check(exc is None, 'configurable-binding-rejected', '%s binding of %r via %s (spelling %s, skip_unknown %s, lead %s) raised %s: %s' %
-                   (cls, param, api, case.get('spelling'), skip_kind, lead, type(exc).__name__, str(exc)[:300])):
+  if not ctx.check(exc is None, 'configurable-binding-rejected', '%s binding of %r via %s (spelling %s, skip_unknown %s, lead %s, history in front %s) raised %s: %s' %
+                   (cls, param, api, case.get('spelling'), skip_kind, lead, prior, type(exc).__name__, str(exc)[:300])):
     return
+  if prior:
+    ctx.bucket('prior-then-accepted')
   if skip_kind:
     ctx.bucket('skip-known-configurable-accepted')
   if lead:
@@ -644,12 +765,15 @@ def run_case(ctx, case):
     inj = got.get(param, (got.get('**') or {}).get(param))
     ctx.check(teq(inj, value) and inj is not value, 'accepted-binding-not-injected', 'received %r, bound %r' % (got, value))
     ctx.bucket('accepted-then-injected')
+    if spec['shape'] in BOUND_SHAPES:
+      ctx.bucket('bound-shape-accepted-then-injected')
 
 
 LEVEL_TEXT = ('Runtime monitor over the product (configurable shape x allow/deny list x parameter-name class x binding API path x scope): the '
               'accept/reject decision of the real code is compared with the stated rule, a rejection must raise and leave a full snapshot '
               '(bindings, provenance, config_str, lock, parse-context depth) identical, and a follow-up call shows that accepted values are injected '
               'and rejected ones never are.')
-LEVEL_NOTE = 'Trusted: the accept rule as a 10-line predicate. Parameter names self/cls are excluded (DESIGN X).'
+LEVEL_NOTE = ('Trusted: the accept rule as a 10-line predicate. The names self/cls of constructors are excluded (DESIGN X); the bound first '
+              'parameter of bound methods / callable objects is examined (never bindable unless **kwargs).')
 TECHNIQUE = 'runtime decision-table monitor over generated (shape x list x name class x API path) with before/after snapshots'
 DESIGN_REF = 'DESIGN.md section 4, C11'
